@@ -34,7 +34,8 @@ def log(msg):
 
 def seed():
     try:
-        return int(os.environ.get("VERIF_SEED", "1"))
+        # any integer is accepted; the harness wants a small non-negative one
+        return abs(int(os.environ.get("VERIF_SEED", "1"))) % 1000000007
     except ValueError:
         return 1
 
